@@ -272,5 +272,15 @@ PROPS['C12'] = dict(
          U('collapse_n5_w1', 'C12_collapse.cpp', ['VP_N=5', 'VP_WMAX=1', 'VP_WT=double', 'VP_GRIDW'], cflags=['-U__SSE2__'], weight=10), U('collapse_n5_w2', 'C12_collapse.cpp', ['VP_N=5', 'VP_WMAX=2', 'VP_WT=double', 'VP_GRIDW'], cflags=['-U__SSE2__'], tiers=['thorough'], weight=60),
          U('collapse_n5_w3_dense', 'C12_collapse.cpp', ['VP_N=5', 'VP_WMAX=3', 'VP_WT=double', 'VP_GRIDW', 'GUDHI_COLLAPSE_USE_DENSE_ARRAY'], cflags=['-U__SSE2__'], tiers=['thorough'], weight=60), U('collapse_n4_float_w4', 'C12_collapse.cpp', ['VP_N=4', 'VP_WMAX=4', 'VP_WT=float', 'VP_GRIDW'], cflags=['-U__SSE2__'], tiers=['thorough'], weight=40)])
 
+# ------------------------------------------------------------------------------------------------ C11
+_t11 = ['end', 'full', 'lower', 'upper', 'sparse']
+PROPS['C11'] = dict(
+  explanation='Bounded symbolic execution of the real Ripser engine (gudhi/ripser.h: distance-matrix classes, the three simplex encodings incl. the 128-bit integer class, coboundary enumerators, apparent pairs, the hash-map based cohomology; clang IR of the headers in /repo): every dissimilarity is a finite-grid float (ties, no triangle inequality), threshold, dim_max, input form and encoding are forked by the solver, the modulus is concrete per unit; the streamed intervals (zero-length dropped) are compared as multisets per dimension with a dense signed Z_p reduction of the truncated Rips flag filtration computed in the harness.',
+  bounds=dict(quick='n=4 points, distances in {1,2}, thresholds {0.5,1,2,inf}, dim_max 0..2, forms full/lower/upper/sparse, encodings auto/bitfield-64/bitfield-128/cns-128 combined by a covering design (every pair of factors levels), modulus 2 and 3; n=3 modulus 5', thorough='full cross product at n=4; n=5 with distances in {1,2}, modulus 2 and 3'),
+  outside=['Euclidean point-cloud input (sqrt of symbolic coordinates)', 'more than 5 points', 'the SIMD path of boost::unordered_flat_map (compiled with -U__SSE2__)', 'moduli above 5'],
+  units=[U('ripser_n4_p2', 'C11_ripser.cpp', ['VP_N=4', 'VP_P=2', 'VP_DMAX=2'], cflags=['-U__SSE2__'], weight=10, must_reach=_t11), U('ripser_n4_p3', 'C11_ripser.cpp', ['VP_N=4', 'VP_P=3', 'VP_DMAX=2'], cflags=['-U__SSE2__'], weight=10, must_reach=_t11),
+         U('ripser_n3_p5', 'C11_ripser.cpp', ['VP_N=3', 'VP_P=5', 'VP_DMAX=3'], cflags=['-U__SSE2__'], weight=5, must_reach=_t11),
+         U('ripser_n4_p2_cross', 'C11_ripser.cpp', ['VP_N=4', 'VP_P=2', 'VP_DMAX=3', 'VP_CROSS'], cflags=['-U__SSE2__'], tiers=['thorough'], weight=60, must_reach=_t11), U('ripser_n5_p2', 'C11_ripser.cpp', ['VP_N=5', 'VP_P=2', 'VP_DMAX=2'], cflags=['-U__SSE2__'], tiers=['thorough'], weight=60, must_reach=_t11), U('ripser_n5_p3', 'C11_ripser.cpp', ['VP_N=5', 'VP_P=3', 'VP_DMAX=2'], cflags=['-U__SSE2__'], tiers=['thorough'], weight=60, must_reach=_t11)])
+
 NOT_APPLICABLE = {}
 NOTES = 'Clauses outside every claim: real thread schedules/TBB execution (engine is sequential), iostream text I/O, GMP arbitrary precision, Eigen-based Coxeter point location under general affine maps, SIMD paths of boost::unordered_flat_map (compiled with -U__SSE2__), allocation failure, inputs beyond the stated bounds.'
